@@ -113,7 +113,13 @@ class C14(Plugin):
                 curies.write_shacl(c, path, **qprops.flags(include_synonyms=bool(syn)))
                 back = curies.load_shacl(path, strict=not syn)
                 canon = set(c.bimap)
-                return case, [qprops.v_dict(back.prefix_map), qprops.v_dict({k: v for k, v in back.pattern_map.items() if k in canon})]
+                rb = [qprops.v_dict(back.prefix_map), qprops.v_dict({k: v for k, v in back.pattern_map.items() if k in canon})]
+                # the entry lines as they stand in the file (one per line inside sh:declare, separated by commas): the model's
+                # reader of that line shape must find one of the converter's (prefix, namespace, pattern) entries in each
+                with open(path, encoding="utf-8", newline="") as f:
+                    text = f.read()
+                lines = [ln[:-1] if ln.endswith(",") else ln for ln in text.split("\n") if "sh:prefix" in ln and not ln.startswith("@prefix")]
+                return case, [77, rb, lines]
             curies.write_tsv(c, path)
             with open(path, newline="") as f:
                 rows = list(csv.reader(f, delimiter="\t"))
